@@ -195,4 +195,113 @@ theorem c09_restart_resets (mode : Mode) (rt rt' : Runtime) (h : restart mode rt
   subst h3
   simp
 
+/-! ## Power cycle with a retain store (save, new process, load) -/
+
+/-- **Power-cycle clause, partial (guard: the variable is a GLOBAL).**  Save on runtime `rt`, then
+load into ANY runtime `fr` with the same global declarations (the newly built process): every
+RETAIN/PERSISTENT global whose saved value is retainable gets the saved value — the set a warm
+restart keeps (`c09_warm_globals_kept`) — and every other global keeps what the new process
+initialised it to. -/
+theorem c09_power_cycle_globals_partial (rt fr : Runtime) (disk : Disk)
+    (hstore : rt.retain.isSome) (hstore' : fr.retain.isSome)
+    (hmeta : fr.globalsMeta = rt.globalsMeta) (hnd : (rt.globalsMeta.map (·.name)).Nodup)
+    (m : GlobalMeta) (hm : m ∈ rt.globalsMeta) :
+    (loadRetainStore fr (saveRetainStore rt disk)).storage.getGlobal m.name =
+      match (if retainOnWarm m.retain then (rt.storage.getGlobal m.name).filter Val.retainable
+             else none) with
+      | some v => some v
+      | none => fr.storage.getGlobal m.name := by
+  cases hr : rt.retain with
+  | none => simp [hr] at hstore
+  | some cfg =>
+    cases hr' : fr.retain with
+    | none => simp [hr'] at hstore'
+    | some cfg' =>
+      simp only [saveRetainStore, hr, loadRetainStore, hr', applyRetainSnapshot, retainSnapshot]
+      rw [applySnapshotAux_spec _ _ _ _ (keys_retainSnapshotAux_nodup _ _ _ (by simp [keys]))]
+      rw [aget_retainSnapshotAux, hmeta, findMeta_of_mem _ hnd m hm]
+      by_cases hret : retainOnWarm m.retain = true
+      · rw [snapVal_of_mem _ _ m hm hret]
+        simp only [hret, if_true]
+        cases hg : rt.storage.getGlobal m.name with
+        | none => simp [Option.filter, aget]
+        | some v =>
+          by_cases hv : v.retainable = true
+          · simp [Option.filter, hv]
+          · simp [Option.filter, hv, aget]
+      · have hret' : retainOnWarm m.retain = false := by simpa using hret
+        have hs : snapVal rt.storage rt.globalsMeta m.name = none := by
+          unfold snapVal
+          split
+          · rename_i hany
+            rw [List.any_eq_true] at hany
+            obtain ⟨x, hx, hxx⟩ := hany
+            simp only [Bool.and_eq_true, beq_iff_eq] at hxx
+            have : x = m := nodup_map_inj (·.name) _ hnd x m hx hm hxx.1
+            subst this
+            rw [hret'] at hxx; simp at hxx
+          · rfl
+        simp [hs, hret', aget]
+
+/-- **Power-cycle clause, counterexample (program-level RETAIN).**  Witness 3: `r` is a
+program-level RETAIN variable, `gr` a RETAIN global, both incremented twice.  A warm restart keeps
+both (`r = 9`, `gr = 2`); save + new runtime + load restores `gr` but `r` is back at its initial
+value 7 — the retain snapshot covers globals only. -/
+theorem c09_counterexample_power_cycle :
+    W.warm3 = some (some 9, some 2) ∧ W.power3 = some (some 7, some 2) := by decide
+
+/-! ## Bindings stay connected -/
+
+/-- **Bindings clause, partial (guard: every I/O, VAR_ACCESS and task-FB reference is rooted in a
+global slot).**  After any restart no binding is disconnected, and the references themselves are
+untouched. -/
+theorem c09_bindings_live_partial (mode : Mode) (rt rt' : Runtime) (h : restart mode rt = .ok rt')
+    (hg : ∀ r, r ∈ rt.bindingRefs → r.loc = .global) :
+    rt'.bindingRefs = rt.bindingRefs ∧ rt'.deadBindings = 0 := by
+  obtain ⟨_, _, _, _, _, _, _, _, ht, hio, hacc, _⟩ := c09_restart_resets mode rt rt' h
+  have hb : rt'.bindingRefs = rt.bindingRefs := by simp [Runtime.bindingRefs, ht, hio, hacc]
+  refine ⟨hb, ?_⟩
+  unfold Runtime.deadBindings
+  rw [hb]
+  have : rt.bindingRefs.filter (fun r => !refLive rt'.storage r) = [] := by
+    rw [List.filter_eq_nil_iff]
+    intro r hr
+    simp [refLive, hg r hr]
+  simp [this]
+
+/-- **Bindings clause, counterexample.**  Witness 0 (`inp AT %IX0.0`, `outp AT %QX0.0`,
+`outp := inp`): input 1, cycle, restart (cold or warm), input 0, cycle.  The output image still
+shows 1 and both I/O bindings are disconnected from the live program instance; a freshly built
+runtime given input 0 shows 0 with no disconnected binding. -/
+theorem c09_counterexample_bindings :
+    W.run0 .cold = some ([1], 2) ∧ W.run0 .warm = some ([1], 2) ∧ W.fresh0 = some ([0], 0) := by
+  decide
+
+/-! ## Cold restart versus a freshly built runtime: the clauses the code violates -/
+
+/-- **Cold = fresh, counterexample (task state).**  Witness 1: the SINGLE variable is initially
+TRUE.  A fresh runtime seeds `last_single = TRUE`, so the event task never fires (`runs = 0` after a
+cycle); after cycle + `restart(Cold)` the next cycle sees a rising edge (`runs = 1`). -/
+theorem c09_counterexample_last_single :
+    W.run1 = some (some 1) ∧ W.fresh1 = some (some 0) := by decide
+
+/-- **Cold = fresh, counterexample (process images).**  Witness 2: a `%MW0`-bound counter: after
+three cycles and `restart(Cold)` the next cycle yields 4 (reloaded from the stale marker image), a
+fresh runtime yields 1. -/
+theorem c09_counterexample_images :
+    W.run2 = some (some 4) ∧ W.fresh2 = some (some 1) := by decide
+
+/-- **Cold = fresh, counterexample (VAR_CONFIG values).**  Witness 5: the build applies
+`VAR_CONFIG P0.w := 300`; `restart(Cold)` re-initialises `w` to the POU's initial value 0. -/
+theorem c09_counterexample_config_init :
+    W.fresh5 = some (some 300) ∧ W.cold5 = some (some 0) := by decide
+
+/-- **Warm clause for FB members, counterexample.**  Witness 4, after two cycles every instance
+has `kept = 9`, `nr = 2`.  `restart(Warm)`: member `kept` (declared RETAIN in the FB type) of the
+program-level RETAIN instance `rfb` is back at 7, while the NON_RETAIN member `nr` of the RETAIN
+global instance `gfb` keeps 2. -/
+theorem c09_counterexample_fb_member :
+    (W.before4.map fun p => (W.num? p.1, W.num? p.2)) = some (some 9, some 2) ∧
+    (W.warm4.map fun p => (W.num? p.1, W.num? p.2)) = some (some 7, some 2) := by decide
+
 end TrustVerif.C09
